@@ -463,6 +463,19 @@ class CFG:
         visit(self.fi.node.body, [])
         for sid, node in self.stmt_node.items():
             self._loops_of[node.id] = m.get(sid, [])
+        # pseudo nodes of loops and tests
+        for n in self.nodes:
+            if n.id in self._loops_of or n.ast is None:
+                continue
+            base = m.get(id(n.ast))
+            if base is None:
+                continue
+            if n.kind in ("for_init", "for_exit"):
+                self._loops_of[n.id] = list(base)
+            elif n.kind == "branch" and isinstance(n.ast, (ast.For, ast.While)):
+                self._loops_of[n.id] = list(base) + ([n.ast] if (n.polarity and True) else [])
+            elif n.kind in ("branch", "test"):
+                self._loops_of[n.id] = list(base)
         return self._loops_of
 
     def node_of(self, astnode) -> Node:
